@@ -111,6 +111,19 @@ CONTRACTS = [
              ensures=[("valid", "spec.secid.is_valid_isin(result, spec.secid.ALLKEYS)"),
                       ("embeds", "result[4:11] == sedol and result[2:4] == '00' and result[:2] == (nation or 'GB')")], gen=gen_valid_sedol,
              props=["C20"], max_paths=400),
+    # 10 a SEDOL whose check character is wrong - any alphanumeric, not only a wrong digit - is refused
+    Contract("ofxtools.utils:sedol2isin",
+             args=[StrArg("sedol", length=7, charset=SEDOL_ALPHA, per_pos={6: ALNUM}), Const("nation", None)],
+             requires=["sedol[6] != str(spec.secid.sedol_check_digit(sedol[:6]))"],
+             raises=[(AssertionError, "True", "must"), (ValueError, "True", "must")], gen=lambda rng: [_rs(rng, SEDOL_ALPHA, 6) + rng.choice(ALNUM), None],
+             notes="invalid SEDOL (check character over all alphanumerics) never yields an ISIN",
+             props=["C20"], max_paths=400),
+    # 11 wrong length refused
+    Contract("ofxtools.utils:sedol2isin",
+             args=[StrArg("sedol", minlen=5, maxlen=9, charset=SEDOL_ALPHA), Const("nation", None)],
+             requires=["len(sedol) != 7"],
+             raises=[(AssertionError, "True", "must"), (ValueError, "True", "must")],
+             props=["C20"], max_paths=400),
 ]
 
 # lemmas over the contracts' spec functions only (no code): changing the check character invalidates
